@@ -1,3 +1,559 @@
-//! C10 (placeholder until the closure model is written)
-use crate::closure::StepOut;
-pub fn replay(_name: &str, _hist: &[u8]) -> Option<(StepOut, Vec<String>)> { None }
+//! C10: keep-alive — PINGREQ cadence and dead-peer detection follow the negotiated time.
+//!
+//! Breadth-first closure, per (configured keep-alive, Server Keep Alive) pair, over what can happen
+//! while the application waits in `poll()`: timers firing exactly or late, inbound traffic now or
+//! just before a deadline, PINGRESP now / just in time / coinciding with the deadline / never, and
+//! the application interrupting the wait to publish. All deadlines in the session are relative to
+//! the virtual clock, so the reachable state graph is finite and the fixpoint covers arbitrarily
+//! long virtual time.
+use crate::bench::Bench;
+use crate::closure::{close, ClosureCaps, Model, StepOut};
+use crate::clock;
+use crate::direct::hash_of;
+use crate::direct2::*;
+use crate::explore::Caps;
+use crate::families::Tier;
+use crate::mqtt_ref::{self as mr, CPacket, PVal, Prop};
+use crate::report::FamilyReport;
+use crate::world::{panic_text, Fp, Pend, Res, VirtualIo};
+use minimq::{Connection, Publication, QoS};
+use serde_json::json;
+use std::future::Future;
+use std::hash::{Hash, Hasher};
+use std::task::{Context, Poll, RawWaker, RawWakerVTable, Waker};
+
+const ROUND_TRIP_MS: u64 = 5_000;
+
+#[derive(Clone, Copy, Debug, PartialEq)]
+enum Ev {
+    /// the pending timer fires exactly on time
+    TimerExact,
+    /// the pending timer fires 1 ms late
+    TimerLate,
+    /// an inbound QoS 0 publish arrives now
+    Inbound,
+    /// time advances to 1 ms before the pending timer, then an inbound QoS 0 publish arrives
+    InboundJustBeforeTimer,
+    /// PINGRESP arrives now
+    PingResp,
+    /// time advances to 1 ms before the pending timer, then PINGRESP arrives
+    PingRespJustBeforeTimer,
+    /// PINGRESP arrives at the very instant of the pending timer
+    PingRespAtTimer,
+    /// the application drops poll(), publishes at QoS 0 and polls again
+    CancelAndPublish0,
+    /// the application drops poll(), publishes at QoS 1 and polls again
+    CancelAndPublish1,
+    /// PUBACK for the outstanding QoS 1 publish arrives now
+    PubAck,
+    /// the application drops poll() and polls again at once
+    CancelAndRepoll,
+    /// time passes until the effective keep-alive has elapsed since the last client packet
+    ToKeepaliveExpiry,
+    /// ... and one millisecond more
+    PastKeepaliveExpiry,
+    /// time passes until 1 ms before / exactly / 1 ms after the round-trip bound of the outstanding PINGREQ
+    ToPingDeadlineMinus1,
+    ToPingDeadline,
+    ToPingDeadlinePlus1,
+    /// PINGRESP arrives 1 ms before / exactly at the round-trip bound
+    PingRespJustBeforeDeadline,
+    PingRespAtDeadline,
+}
+
+const EVENTS: [Ev; 18] = [
+    Ev::TimerExact,
+    Ev::TimerLate,
+    Ev::Inbound,
+    Ev::InboundJustBeforeTimer,
+    Ev::PingResp,
+    Ev::PingRespJustBeforeTimer,
+    Ev::PingRespAtTimer,
+    Ev::CancelAndPublish0,
+    Ev::CancelAndPublish1,
+    Ev::PubAck,
+    Ev::CancelAndRepoll,
+    Ev::ToKeepaliveExpiry,
+    Ev::PastKeepaliveExpiry,
+    Ev::ToPingDeadlineMinus1,
+    Ev::ToPingDeadline,
+    Ev::ToPingDeadlinePlus1,
+    Ev::PingRespJustBeforeDeadline,
+    Ev::PingRespAtDeadline,
+];
+
+pub struct C10 {
+    keepalive: u16,
+    server: Option<u16>,
+}
+
+fn noop_waker() -> Waker {
+    fn clone(_: *const ()) -> RawWaker {
+        RawWaker::new(std::ptr::null(), &VTABLE)
+    }
+    fn noop(_: *const ()) {}
+    static VTABLE: RawWakerVTable = RawWakerVTable::new(clone, noop, noop, noop);
+    unsafe { Waker::from_raw(RawWaker::new(std::ptr::null(), &VTABLE)) }
+}
+
+#[derive(Default, Hash, Clone, Debug)]
+struct Mon {
+    /// virtual time of the last completed client packet
+    last_tx: u64,
+    /// completion time of an unanswered PINGREQ
+    ping_at: Option<u64>,
+    /// the PINGRESP for the outstanding ping arrived exactly at the deadline: either outcome is fine
+    coincidence: bool,
+    /// milliseconds by which timers fired late since the last client packet
+    late_ms: u64,
+    qos1_outstanding: Option<u16>,
+    dead: bool,
+    pings: u32,
+    /// a PINGRESP for the outstanding ping has been put on the wire towards the client
+    resp_pushed: bool,
+}
+
+impl C10 {
+    fn effective_ms(&self) -> u64 {
+        self.server.unwrap_or(self.keepalive) as u64 * 1000
+    }
+
+    /// Account for everything the client wrote since `from`.
+    fn account_writes(&self, bench: &Bench, id: usize, from: &mut usize, mon: &mut Mon, viol: &mut Vec<(String, String)>, waiting: bool) {
+        let w = bench.written(id);
+        let mut off = *from;
+        let now = clock::now() / clock::TICKS_PER_MS;
+        let e = self.effective_ms();
+        while off < w.len() {
+            match mr::decode_client(&w[off..]) {
+                Ok((p, n)) => {
+                    off += n;
+                    let gap = now.saturating_sub(mon.last_tx);
+                    if waiting && e > 0 && gap > e + mon.late_ms {
+                        let ctx = if mon.ping_at.is_some() { if e < ROUND_TRIP_MS { "while-awaiting-pingresp-keepalive-below-round-trip-bound" } else { "while-awaiting-pingresp" } } else { "idle" };
+                        viol.push((
+                            format!("C10:G1-gap-exceeds-keepalive:{}", ctx),
+                            format!("{} completed {} ms after the previous client packet; effective keep-alive {} ms (timers late by {} ms)", p.name(), gap, e, mon.late_ms),
+                        ));
+                    }
+                    if matches!(p, CPacket::PingReq) {
+                        mon.pings += 1;
+                        if mon.ping_at.is_some() && mon.resp_pushed && bench.inbound_left(id) == 0 {
+                            // the answer to the previous ping was consumed earlier in this same poll
+                            mon.ping_at = None;
+                            mon.resp_pushed = false;
+                        }
+                        if e == 0 {
+                            viol.push(("C10:G0-ping-with-keepalive-zero:pingreq".into(), "a PINGREQ was sent although the effective keep-alive is 0".into()));
+                        }
+                        if mon.ping_at.is_some() {
+                            viol.push(("C10:G1-second-pingreq:while-awaiting-pingresp".into(), "a second PINGREQ was sent while the first is unanswered".into()));
+                        }
+                        mon.ping_at = Some(now);
+                        mon.coincidence = false;
+                        mon.resp_pushed = false;
+                    }
+                    if let CPacket::Publish(pp) = &p {
+                        if pp.qos == 1 {
+                            mon.qos1_outstanding = pp.pid;
+                        }
+                    }
+                    mon.last_tx = now;
+                    mon.late_ms = 0;
+                }
+                Err(_) => {
+                    viol.push(("C10:wire:undecodable".into(), format!("client wrote {}", mr::hex(&w[off..]))));
+                    off = w.len();
+                }
+            }
+        }
+        *from = off;
+    }
+}
+
+enum After {
+    Pub(u8),
+    Repoll,
+    End,
+    Dead(Res),
+    Again,
+}
+
+impl Model for C10 {
+    fn name(&self) -> String {
+        format!("C10-keepalive-{}-server-{:?}", self.keepalive, self.server)
+    }
+
+    fn alphabet(&self) -> Vec<String> {
+        EVENTS.iter().map(|e| format!("{:?}", e)).collect()
+    }
+
+    fn run(&self, hist: &[u8], record: bool) -> (StepOut, Vec<String>) {
+        let mut spec = Spec::plain(64, 128);
+        spec.keepalive = self.keepalive;
+        let result = std::panic::catch_unwind(std::panic::AssertUnwindSafe(|| {
+            let mut trace: Vec<String> = Vec::new();
+            let out = with_session(&spec, |bench, s| {
+                let mut viol: Vec<(String, String)> = Vec::new();
+                let props = self.server.map(|k| vec![Prop { id: 0x13, val: PVal::U16(k) }]).unwrap_or_default();
+                let Conn::Ok(mut conn, id) = connect(bench, s, &connack(false, props)) else { panic!("machinery: connect failed") };
+                let mut mon = Mon { last_tx: clock::now() / clock::TICKS_PER_MS, ..Default::default() };
+                let mut seen = bench.written(id).len();
+                let mut idx = 0usize;
+                let mut applicable = true;
+                let e_ms = self.effective_ms();
+                let waker = noop_waker();
+                let mut class: u64 = 0;
+                macro_rules! log {
+                    ($($a:tt)*) => { if record { trace.push(format!($($a)*)); } };
+                }
+                let now_ms = || clock::now() / clock::TICKS_PER_MS;
+                'outer: loop {
+                    let after: After = {
+                        let mut fut = Box::pin(conn.poll());
+                        let mut cx = Context::from_waker(&waker);
+                        let mut res: After;
+                        loop {
+                            clock::clear_wake();
+                            bench.sh.borrow_mut().pending = Pend::None;
+                            bench.sh.borrow_mut().op_calls = 0;
+                            match fut.as_mut().poll(&mut cx) {
+                                Poll::Ready(r) => {
+                                    res = match r {
+                                        Ok(Some(_)) => After::Again,
+                                        Ok(None) => After::Again,
+                                        Err(e) => After::Dead(Res::from_err(&e)),
+                                    };
+                                    break;
+                                }
+                                Poll::Pending => {
+                                    // blocked: nothing to read; a timer may be registered
+                                    if bench.sh.borrow().pending != Pend::ReadEmpty {
+                                        panic!("machinery: poll pending without a blocked read");
+                                    }
+                                    self.account_writes(bench, id, &mut seen, &mut mon, &mut viol, true);
+                                    let wake = clock::wake();
+                                    let now = now_ms();
+                                    // standing obligations while blocked
+                                    if e_ms == 0 && wake.is_some() {
+                                        viol.push(("C10:G0-timer-with-keepalive-zero:timer".into(), "a timer is armed although the effective keep-alive is 0".into()));
+                                    }
+                                    if e_ms > 0 && now.saturating_sub(mon.last_tx) > e_ms + mon.late_ms {
+                                        let ctx = if mon.ping_at.is_some() { if e_ms < ROUND_TRIP_MS { "while-awaiting-pingresp-keepalive-below-round-trip-bound" } else { "while-awaiting-pingresp" } } else { "idle" };
+                                        viol.push((
+                                            format!("C10:G1-gap-exceeds-keepalive:{}", ctx),
+                                            format!("still waiting {} ms after the previous client packet with nothing sent; effective keep-alive {} ms", now - mon.last_tx, e_ms),
+                                        ));
+                                    }
+                                    if let Some(p) = mon.ping_at {
+                                        if now >= p + ROUND_TRIP_MS && !mon.coincidence {
+                                            viol.push(("C10:G2-no-disconnect:unanswered-pingreq".into(), format!("PINGREQ completed at {} ms is unanswered at {} ms and poll keeps waiting", p, now)));
+                                        }
+                                    }
+                                    if e_ms > 0 && wake.is_none() {
+                                        viol.push(("C10:G1-no-timer:waiting-without-deadline".into(), "poll waits without any deadline although keep-alive is enabled".into()));
+                                    }
+                                    if !viol.is_empty() {
+                                        res = After::End;
+                                        break;
+                                    }
+                                    if idx >= hist.len() {
+                                        res = After::End;
+                                        break;
+                                    }
+                                    let ev = EVENTS[hist[idx] as usize];
+                                    let last = idx + 1 == hist.len();
+                                    idx += 1;
+                                    let wake_ms = wake.map(|t| t / clock::TICKS_PER_MS);
+                                    let mut na = false;
+                                    match ev {
+                                        Ev::TimerExact | Ev::TimerLate => match wake {
+                                            Some(t) if t > clock::now() => {
+                                                let late = if ev == Ev::TimerLate { 1 } else { 0 };
+                                                clock::set(t + late * clock::TICKS_PER_MS);
+                                                mon.late_ms += late;
+                                                log!("{:?}: clock -> {} ms", ev, now_ms());
+                                            }
+                                            Some(_) => {
+                                                log!("{:?}: timer already due, re-poll", ev);
+                                            }
+                                            None => na = true,
+                                        },
+                                        Ev::Inbound => {
+                                            bench.push(id, &[0x30, 0x05, 0x00, 0x01, b'a', 0x00, 0x55]);
+                                            log!("Inbound QoS 0 publish at {} ms", now_ms());
+                                        }
+                                        Ev::InboundJustBeforeTimer => match wake {
+                                            Some(t) if t > clock::now() + clock::TICKS_PER_MS => {
+                                                clock::set(t - clock::TICKS_PER_MS);
+                                                bench.push(id, &[0x30, 0x05, 0x00, 0x01, b'a', 0x00, 0x55]);
+                                                log!("Inbound QoS 0 publish 1 ms before the timer, at {} ms", now_ms());
+                                            }
+                                            _ => na = true,
+                                        },
+                                        Ev::PingResp => {
+                                            if mon.ping_at.is_some() {
+                                                bench.push(id, &[0xD0, 0x00]);
+                                                mon.resp_pushed = true;
+                                                if let Some(p) = mon.ping_at {
+                                                    if now >= p + ROUND_TRIP_MS {
+                                                        mon.coincidence = true;
+                                                    }
+                                                }
+                                                log!("PINGRESP at {} ms", now_ms());
+                                            } else {
+                                                na = true;
+                                            }
+                                        }
+                                        Ev::PingRespJustBeforeTimer => match (wake, mon.ping_at) {
+                                            (Some(t), Some(_)) if t > clock::now() + clock::TICKS_PER_MS => {
+                                                clock::set(t - clock::TICKS_PER_MS);
+                                                bench.push(id, &[0xD0, 0x00]);
+                                                mon.resp_pushed = true;
+                                                log!("PINGRESP 1 ms before the timer, at {} ms", now_ms());
+                                            }
+                                            _ => na = true,
+                                        },
+                                        Ev::PingRespAtTimer => match (wake, mon.ping_at) {
+                                            (Some(t), Some(p)) if t > clock::now() => {
+                                                clock::set(t);
+                                                bench.push(id, &[0xD0, 0x00]);
+                                                mon.resp_pushed = true;
+                                                if t / clock::TICKS_PER_MS >= p + ROUND_TRIP_MS {
+                                                    mon.coincidence = true;
+                                                }
+                                                log!("PINGRESP exactly at the timer, at {} ms", now_ms());
+                                            }
+                                            _ => na = true,
+                                        },
+                                        Ev::PubAck => match mon.qos1_outstanding {
+                                            Some(pid) => {
+                                                bench.push(id, &[0x40, 0x02, (pid >> 8) as u8, pid as u8]);
+                                                mon.qos1_outstanding = None;
+                                                log!("PUBACK at {} ms", now_ms());
+                                            }
+                                            None => na = true,
+                                        },
+                                        Ev::CancelAndPublish0 => {
+                                            res = After::Pub(0);
+                                            break;
+                                        }
+                                        Ev::CancelAndPublish1 => {
+                                            if mon.qos1_outstanding.is_some() {
+                                                na = true;
+                                            } else {
+                                                res = After::Pub(1);
+                                                break;
+                                            }
+                                        }
+                                        Ev::CancelAndRepoll => {
+                                            res = After::Repoll;
+                                            break;
+                                        }
+                                        Ev::ToKeepaliveExpiry | Ev::PastKeepaliveExpiry => {
+                                            let extra = if ev == Ev::PastKeepaliveExpiry { 1 } else { 0 };
+                                            let target = (mon.last_tx + e_ms + extra) * clock::TICKS_PER_MS;
+                                            let jumps_timer = wake.is_some_and(|t| t > clock::now() && target > t);
+                                            if e_ms > 0 && target > clock::now() && !jumps_timer {
+                                                clock::set(target);
+                                                log!("{:?}: clock -> {} ms", ev, now_ms());
+                                            } else {
+                                                na = true;
+                                            }
+                                        }
+                                        Ev::ToPingDeadlineMinus1 | Ev::ToPingDeadline | Ev::ToPingDeadlinePlus1 | Ev::PingRespJustBeforeDeadline | Ev::PingRespAtDeadline => match mon.ping_at {
+                                            Some(p) => {
+                                                let bound = p + ROUND_TRIP_MS;
+                                                let target_ms = match ev {
+                                                    Ev::ToPingDeadlineMinus1 | Ev::PingRespJustBeforeDeadline => bound - 1,
+                                                    Ev::ToPingDeadlinePlus1 => bound + 1,
+                                                    _ => bound,
+                                                };
+                                                let target = target_ms * clock::TICKS_PER_MS;
+                                                let jumps_timer = wake.is_some_and(|t| t > clock::now() && target > t);
+                                                if target > clock::now() && !mon.resp_pushed && !jumps_timer {
+                                                    clock::set(target);
+                                                    if matches!(ev, Ev::PingRespJustBeforeDeadline | Ev::PingRespAtDeadline) {
+                                                        bench.push(id, &[0xD0, 0x00]);
+                                                        mon.resp_pushed = true;
+                                                        if ev == Ev::PingRespAtDeadline {
+                                                            mon.coincidence = true;
+                                                        }
+                                                    }
+                                                    log!("{:?}: clock -> {} ms", ev, now_ms());
+                                                } else {
+                                                    na = true;
+                                                }
+                                            }
+                                            None => na = true,
+                                        },
+                                    }
+                                    let _ = wake_ms;
+                                    if na {
+                                        if last {
+                                            applicable = false;
+                                            res = After::End;
+                                            break;
+                                        }
+                                        panic!("machinery: inapplicable event inside a history");
+                                    }
+                                }
+                            }
+                        }
+                        res
+                    };
+                    match after {
+                        After::Again => {
+                            self.account_writes(bench, id, &mut seen, &mut mon, &mut viol, true);
+                            // a consumed PINGRESP clears the outstanding ping
+                            if mon.ping_at.is_some() && bench.inbound_left(id) == 0 && conn.session().verif_runtime().ping_timeout_ticks.is_none() {
+                                log!("ping answered (deadline cleared) at {} ms", now_ms());
+                                mon.ping_at = None;
+                                mon.resp_pushed = false;
+                            }
+                            continue 'outer;
+                        }
+                        After::Dead(r) => {
+                            self.account_writes(bench, id, &mut seen, &mut mon, &mut viol, true);
+                            let now = now_ms();
+                            log!("poll -> Err({:?}) at {} ms", r, now);
+                            mon.dead = true;
+                            class = hash_of(&(class, format!("{:?}", r)));
+                            if r != Res::Disconnected {
+                                viol.push((format!("C10:unexpected-error:{:?}", r), format!("poll returned {:?}", r)));
+                            } else {
+                                match mon.ping_at {
+                                    Some(p) => {
+                                        if now < p + ROUND_TRIP_MS {
+                                            viol.push(("C10:G2-early-disconnect:before-round-trip-bound".into(), format!("PINGREQ completed at {} ms, disconnected already at {} ms (bound {} ms)", p, now, ROUND_TRIP_MS)));
+                                        }
+                                    }
+                                    None => {
+                                        viol.push(("C10:G3-disconnect-despite-pingresp:no-ping-outstanding".into(), format!("poll reported disconnected at {} ms although no PINGREQ is unanswered", now)));
+                                    }
+                                }
+                            }
+                            if conn.is_connected() {
+                                viol.push(("C10:dead-handle-alive:after-timeout".into(), "handle still connected after the keep-alive timeout".into()));
+                            }
+                            break 'outer;
+                        }
+                        After::Pub(q) => {
+                            log!("application drops poll() and publishes at QoS {} at {} ms", q, now_ms());
+                            // keep the identifier counter from growing without bound (setter validated under C07)
+                            conn.verif_session_mut().verif_set_next_packet_id(1);
+                            let r = bench_publish(bench, &mut conn, id, q);
+                            if let Err(e) = r {
+                                log!("publish -> {:?}", e);
+                                if e.fatal() {
+                                    mon.dead = true;
+                                    break 'outer;
+                                }
+                            }
+                            self.account_writes(bench, id, &mut seen, &mut mon, &mut viol, false);
+                            continue 'outer;
+                        }
+                        After::Repoll => {
+                            log!("application drops poll() and polls again at {} ms", now_ms());
+                            continue 'outer;
+                        }
+                        After::End => break 'outer,
+                    }
+                }
+                if !applicable {
+                    return (None, viol, class);
+                }
+                // state key: real session (deadlines relative to now) + monitor, all relative
+                let now = now_ms();
+                conn.verif_session_mut().verif_set_next_packet_id(1);
+                let mut h = Fp::new();
+                conn.session().verif_fingerprint(&mut |b| h.write(b));
+                conn.is_connected().hash(&mut h);
+                if e_ms > 0 {
+                    now.saturating_sub(mon.last_tx).hash(&mut h);
+                }
+                mon.ping_at.map(|p| now - p).hash(&mut h);
+                mon.coincidence.hash(&mut h);
+                mon.resp_pushed.hash(&mut h);
+                mon.late_ms.hash(&mut h);
+                mon.qos1_outstanding.is_some().hash(&mut h);
+                mon.dead.hash(&mut h);
+                clock::wake().map(|t| t.saturating_sub(clock::now())).hash(&mut h);
+                let key = if viol.is_empty() { h.finish128() } else { 0xBAD };
+                (Some(key), viol, hash_of(&(class, mon.pings.min(3), mon.dead)))
+            });
+            (out, trace)
+        }));
+        match result {
+            Ok((Built::Ran((key, viol, class)), trace)) => (StepOut { key, viol, class }, trace),
+            Ok((Built::Config(e), _)) => panic!("machinery: {}", e),
+            Err(p) => {
+                let text = panic_text(&p);
+                let rule = if text.starts_with("machinery:") { "MACHINERY" } else { "PANIC" };
+                let cls: String = text.chars().take(40).map(|c| if c.is_ascii_alphanumeric() { c } else { '_' }).collect();
+                (
+                    StepOut {
+                        key: Some(hash_of(&text) as u128),
+                        viol: vec![(format!("C10:{}:{}", rule, cls), format!("client code panicked: {}", text))],
+                        class: 0xDEAD,
+                    },
+                    vec![format!("PANIC: {}", text)],
+                )
+            }
+        }
+    }
+}
+
+fn bench_publish(bench: &Bench, conn: &mut Connection<'_, '_, VirtualIo>, id: usize, q: u8) -> Result<(), Res> {
+    let fut = conn.publish(Publication::bytes("t", b"x").qos(if q == 0 { QoS::AtMostOnce } else { QoS::AtLeastOnce }));
+    let mut fut = Box::pin(fut);
+    let waker = noop_waker();
+    let mut cx = Context::from_waker(&waker);
+    bench.sh.borrow_mut().op_calls = 0;
+    match fut.as_mut().poll(&mut cx) {
+        Poll::Ready(Ok(_)) => Ok(()),
+        Poll::Ready(Err(e)) => Err(Res::from_pub(&e)),
+        Poll::Pending => panic!("machinery: publish blocked on a writable transport"),
+    }
+}
+
+pub fn pairs(tier: Tier) -> Vec<(u16, Option<u16>)> {
+    if tier == Tier::Quick {
+        vec![(0, None), (1, None), (3, None), (10, None), (60, None), (60, Some(1)), (1, Some(0)), (0, Some(30)), (11, Some(5))]
+    } else {
+        let mut v = Vec::new();
+        for k in [0u16, 1, 2, 3, 9, 10, 11, 60, 65535] {
+            for s in [None, Some(0u16), Some(1), Some(5), Some(30)] {
+                v.push((k, s));
+            }
+        }
+        v
+    }
+}
+
+pub fn run(tier: Tier, caps: &Caps) -> Vec<FamilyReport> {
+    let mut out = Vec::new();
+    for (k, s) in pairs(tier) {
+        let m = C10 { keepalive: k, server: s };
+        let cc = ClosureCaps {
+            max_states: if tier == Tier::Quick { 200_000 } else { 2_000_000 },
+            max_depth: 200,
+            wall: caps.wall,
+            threads: caps.threads,
+        };
+        let bounds = json!({"keepalive_s": k, "server_keepalive_s": s, "round_trip_bound_ms": ROUND_TRIP_MS, "state_cap": cc.max_states,
+            "oracles": "G0 keep-alive 0: no PINGREQ, no timer; G1 gap between completed client packets (and time waited with nothing sent) <= effective keep-alive (+1 ms per late timer); G2 unanswered PINGREQ => disconnected at, and not before, completion + 5 s; G3 PINGRESP consumed before the bound => no disconnect (exact coincidence: either)"});
+        out.push(close(&m, "C10", &cc, bounds));
+    }
+    out
+}
+
+pub fn replay(name: &str, hist: &[u8]) -> Option<(StepOut, Vec<String>)> {
+    for (k, s) in pairs(Tier::Thorough).into_iter().chain(pairs(Tier::Quick)) {
+        let m = C10 { keepalive: k, server: s };
+        if m.name() == name {
+            return Some(m.run(hist, true));
+        }
+    }
+    None
+}
